@@ -330,10 +330,18 @@ def exec_linsolve(case):
 def run_linsolve_point(acc, m, sA, sb, A, b, b2, cls, sig, point, solver, lda, counter):
     rhs_now = b
     x_first = None
-    for step in ('first', 'repeat', 'new_rhs', 'new_shape'):
+    for step in ('first', 'repeat', 'new_rhs', 'feedback', 'new_shape'):
         if step == 'new_rhs':
             sb.state = b2.copy()
             rhs_now = b2
+        if step == 'feedback':
+            # the previous solution is fed back as the next right-hand side (inverse iteration, time stepping): the very
+            # object the module returned becomes its input
+            prev = m.sig_out[0].state
+            rhs_now = np.array(prev, copy=True)
+            if not np.all(np.isfinite(rhs_now)) or maxabs(rhs_now) == 0:
+                continue
+            sb.state = prev
         if step == 'new_shape':
             # the same module is handed a right-hand side of another shape (one more load case / a single vector)
             rs_ = point.get('rscale', 1.0)
